@@ -184,7 +184,11 @@ pub fn run_case(which: Which, c: &GCase, n: u64) -> Verdict {
     let mut other_fs_dir: Option<PathBuf> = None;
     if c.split_fs && roots.len() >= 2 && c.roots >= 2 {
         let src = cd.tree().join(&roots[1]);
-        let dst_base = PathBuf::from(format!("/var/tmp/fcvw/p{}/split{}", std::process::id(), n));
+        // every other case: onto the loop device backed by tmpfs (classified as SSD); else the root disk (HDD)
+        let dst_base = match (n % 2 == 0, ssd_mount()) {
+            (true, Some(m)) => m.join(format!("split{}", n)),
+            _ => PathBuf::from(format!("/var/tmp/fcvw/p{}/split{}", std::process::id(), n)),
+        };
         let _ = std::fs::create_dir_all(&dst_base);
         let dst = dst_base.join("r_other");
         let ok = std::process::Command::new("cp").arg("-a").arg(&src).arg(&dst).status().map(|s| s.success()).unwrap_or(false);
@@ -449,7 +453,7 @@ pub fn check(which: Which, tier: Tier) -> i32 {
         ),
         Which::C03 => ctx.finish(
             "exploration",
-            "proptest-generated trees (2-5 palette contents shared by 5-18 files over 1-3 roots, nested dirs, hard links, twin tmpfs file systems with equal inode numbers in a tenth of the cases, overlapping/repeated roots, given as arguments or - one case in five - through --stdin) ; in 15 % of the multi-root cases the second root is moved to ext4 below /var/tmp while the first stays on tmpfs (devices of different detected kinds, disk kind not pinned); in 10 % every open with O_NOATIME is refused with EPERM by the interposer (a user who does not own the files) x configurations (rf-over 0..3, rf-under 1..4, unique, transform, cache, hash fn, prefix/suffix sizes, pinned device, thread specs); oracle: reference content partition of the reference selection + documented replica rule, compared as a set of path-sets with lengths (nothing missing, split, merged, duplicated or unselected). Non-trivial = >=2 expected groups AND a reported class with members in >=2 directories whose size >= prefix length in force AND >=1 class that must not be reported.",
+            "proptest-generated trees (2-5 palette contents shared by 5-18 files over 1-3 roots, nested dirs, hard links, twin tmpfs file systems with equal inode numbers in a tenth of the cases, overlapping/repeated roots, given as arguments or - one case in five - through --stdin) ; in 15 % of the multi-root cases the second root is moved to another device - the root disk (rotational, HDD) or a loop device backed by tmpfs (non-rotational, SSD) - while the first stays on tmpfs (which fclones attributes to the root disk): devices of different detected kinds in one run, disk kind not pinned; in 10 % every open with O_NOATIME is refused with EPERM by the interposer (a user who does not own the files) x configurations (rf-over 0..3, rf-under 1..4, unique, transform, cache, hash fn, prefix/suffix sizes, pinned device, thread specs); oracle: reference content partition of the reference selection + documented replica rule, compared as a set of path-sets with lengths (nothing missing, split, merged, duplicated or unselected). Non-trivial = >=2 expected groups AND a reported class with members in >=2 directories whose size >= prefix length in force AND >=1 class that must not be reported.",
             &["plain name profile: no hidden names, no ignore files (selection subtleties are C09's)", "replica counting uses the simple rule (no -H, no --isolate) here; C06 covers the rest"],
         ),
     }
